@@ -215,4 +215,5 @@ _re_formatter = _ReplaceFormatter(default=_re_default)
 
 def template_to_re_pattern(template: KeyTemplate) -> Pattern:
     pattern = _re_formatter.format(template.translate(_re_special_chars_map))
-    return re.compile("^" + pattern + "$", flags=re.MULTILINE)
+    # a field takes any text, line breaks included (the key was rendered from arbitrary argument values)
+    return re.compile("^" + pattern + "$", flags=re.MULTILINE | re.DOTALL)
